@@ -214,8 +214,12 @@ def coq_make(timeout=3000, clean=False, only=None, tag=None):
             return rc, out
     if clean:
         sh("make -f %s clean" % mk, cwd=COQ, timeout=300)
-    # every coqc under a shell timeout: one runaway proof must not block the whole build
-    rc, out = sh("make -f %s -k -j16 COQC='timeout 1500 coqc'" % mk, cwd=COQ, timeout=timeout)
+    # every coqc under a shell timeout: one runaway proof must not block the whole build; one build of
+    # /verif/coq at a time, whichever tree or property the run is about
+    import fcntl
+    with open(os.path.join(COQ, ".make.lock"), "w") as lk:
+        fcntl.flock(lk, fcntl.LOCK_EX)
+        rc, out = sh("make -f %s -k -j16 COQC='timeout 1500 coqc'" % mk, cwd=COQ, timeout=timeout)
     with open(os.path.join(WORK, "log", "coq_make%s.log" % ("" if tag is None else "_" + tag)), "w") as f:
         f.write(out)
     return rc, out
